@@ -30,6 +30,7 @@ class EngineError(Exception):
 
 
 Z3_TIMEOUT_MS = 10000
+Z3_FIRST_MS = 2500
 
 
 class Stats:
@@ -272,9 +273,20 @@ class Ctx:
             return "proved"
         try:
             t0 = time.time()
-            r = _check(self.solver, *extra_hyp, z3.Not(f),
-                       timeout=FEAS_TIMEOUT_MS if name.endswith("::__canary__") else None)
-            if r != z3.unsat and self.lazy_facts and not name.endswith("::__canary__"):
+            canary = name.endswith("::__canary__")
+            # z3 first with a short budget: its sequence solver either answers at once or wanders (and is unstable
+            # under load); cvc5 decides those queries in a fraction of a second, z3 gets its full budget only after
+            r = _check(self.solver, *extra_hyp, z3.Not(f), timeout=FEAS_TIMEOUT_MS if canary else Z3_FIRST_MS)
+            if r == z3.unknown and not canary:
+                from . import backends
+
+                v1, _out1, dt1 = backends.cvc5_check(self.solver.smt_of_last_query())
+                if v1 == "unsat":
+                    STATS.by_backend["cvc5"] += 1
+                    self.obligations.append((name, "proved", {"backend": "cvc5", "t": time.time() - t0, **(info or {})}))
+                    return "proved"
+                r = _check(self.solver, *extra_hyp, z3.Not(f))
+            if r != z3.unsat and self.lazy_facts and not canary:
                 r = _check(self.solver, *extra_hyp, *self.lazy_facts, z3.Not(f))
             if name.endswith("::__canary__") and r == z3.unknown:
                 # the planted false assertion is *not proved*: that is all the canary has to show
